@@ -106,7 +106,7 @@ theorem claimAll_spec (bump : Nat) (tag : UInt8) (what : String) (htag : tag ≠
 theorem claimFreeList_spec (bump : Nat) (what : String) :
     ∀ (fl : List (Nat × List Nat)) (marks mk' : Array UInt8), claimFreeList marks bump fl what = .ok mk' → marks.size = bump →
       mk'.size = bump ∧ MarksLe marks mk' ∧ (∀ x ∈ fl, mk'[x.1]! = 3 ∧ x.1 < bump) ∧
-      (∀ i : Nat, mk'[i]! = marks[i]! ∨ (i ∈ trackedOf fl)) := by
+      (∀ i : Nat, mk'[i]! = marks[i]! ∨ (i ∈ trackedOf fl ∧ (mk'[i]! = 3 ∨ mk'[i]! = 4))) := by
   intro fl
   induction fl with
   | nil =>
@@ -139,13 +139,14 @@ theorem claimFreeList_spec (bump : Nat) (what : String) :
             rw [hle3.2 pn (by rw [this]; decide), this]
           · exact hall3 y hy
         · intro i
-          rcases hch3 i with h3 | h3
-          · rcases hch2 i with h2 | ⟨h2, _⟩
-            · rcases hch1 i with h1 | ⟨h1, _⟩
+          rcases hch3 i with h3 | ⟨h3, hv3⟩
+          · rcases hch2 i with h2 | ⟨h2, hv2⟩
+            · rcases hch1 i with h1 | ⟨h1, hv1⟩
               · left; rw [h3, h2, h1]
-              · right; simp [trackedOf, h1]
-            · right; simp [trackedOf, h2]
+              · right; exact ⟨by simp [trackedOf, h1], Or.inl (by rw [h3, h2, hv1])⟩
+            · right; exact ⟨by simp [trackedOf, h2], Or.inr (by rw [h3, hv2])⟩
           · right
+            refine ⟨?_, hv3⟩
             simp only [trackedOf, List.flatMap_cons, List.mem_append] at h3 ⊢
             exact Or.inr h3
 
